@@ -315,33 +315,39 @@ def same_process(ctx):
     must not create (or replace) the file at the failed call's output path.  F15: a failure inside the serialisation itself
     leaves the temporary file in the process-wide queue"""
     rng = ctx.rng
-    for target, _ in STAGES['gen_params']:
-        for pre in (False, True):
-            with systems.Workdir() as wd:
-                prepare(wd, rng)
-                outdir = os.path.join(wd, 'out')
-                if pre:
-                    with open(os.path.join(outdir, 'failed.itp'), 'w') as fh:
-                        fh.write('OLD CONTENT')
-                reset_writer()
-                exc1 = run_program('gen_params', wd, 'failed.itp', fail_target=target, fresh_writer=False)
-                mid = listing(outdir)
-                exc2 = run_program('gen_coords', wd, 'out.gro', fresh_writer=False)
-                after = listing(outdir)
-                reset_writer()
-            if exc1 is None:
-                continue        # the stage is not reached on this input
-            ctx.case(('same_process', target, pre), nontrivial=True)
-            ctx.feature('same_process_histories')
-            want = {'failed.itp': 'OLD CONTENT'} if pre else {}
-            rep = {'same_process': True, 'stage': target, 'pre_existing': pre}
-            if mid != want:
-                ctx.violation('spec', f"gen_params failed in {target.split(':')[1]} but the output directory changed: {sorted(mid)}", dict(rep, listing=sorted(mid)))
-            got = {k: v for k, v in after.items() if k != 'out.gro'}
-            if got != want:
-                ctx.violation('spec', f"gen_params failed in {target.split(':')[1]}; a later successful gen_coords call in the same process "
-                              f"{'replaced the file' if pre else 'created a file'} at the failed call's output path (directory now: {sorted(after)})",
-                              dict(rep, listing=sorted(after)), finding='F15' if target == 'vermouth.gmx.itp:write_molecule_itp' else None)
+    for first, outname, second, second_out in (('gen_params', 'failed.itp', 'gen_coords', 'out.gro'), ('gen_coords', 'failed.gro', 'gen_params', 'out.itp'),
+                                                ('gen_coords', 'failed.gro', 'gen_coords', 'out.gro')):
+        for target, _ in STAGES[first]:
+            for pre in (False, True):
+                if first == 'gen_coords' and second == 'gen_coords' and pre:
+                    continue
+                with systems.Workdir() as wd:
+                    prepare(wd, rng)
+                    outdir = os.path.join(wd, 'out')
+                    if pre:
+                        with open(os.path.join(outdir, outname), 'w') as fh:
+                            fh.write('OLD CONTENT')
+                    reset_writer()
+                    exc1 = run_program(first, wd, outname, fail_target=target, fresh_writer=False)
+                    mid = listing(outdir)
+                    exc2 = run_program(second, wd, second_out, fresh_writer=False)
+                    after = listing(outdir)
+                    reset_writer()
+                if exc1 is None:
+                    continue        # the stage is not reached on this input
+                ctx.case(('same_process', first, second, target, pre), nontrivial=True)
+                ctx.feature(f'same_process_histories_{first}_then_{second}')
+                want = {outname: 'OLD CONTENT'} if pre else {}
+                rep = {'same_process': True, 'first': first, 'second': second, 'stage': target, 'pre_existing': pre}
+                if mid != want:
+                    ctx.violation('spec', f"{first} failed in {target.split(':')[1]} but the output directory changed: {sorted(mid)}", dict(rep, listing=sorted(mid)))
+                got = {k: v for k, v in after.items() if k != second_out}
+                if got != want:
+                    ctx.violation('spec', f"{first} failed in {target.split(':')[1]}; a later successful {second} call in the same process "
+                                  f"{'replaced the file' if pre else 'created a file'} at the failed call's output path (directory now: {sorted(after)})",
+                                  dict(rep, listing=sorted(after)),
+                                  finding='F15' if first == 'gen_params' and target == 'vermouth.gmx.itp:write_molecule_itp' else
+                                  'F15b' if first == 'gen_coords' and target.startswith('vermouth.gmx.gro:write_gro@') else None)
 
 
 NATURAL_SEQ = [
@@ -475,7 +481,8 @@ def replay(ctx, data):
                 pass
 
             def violation(self, kind, what, rep, finding=None):
-                if rep.get('stage') == data.get('stage') and rep.get('pre_existing') == data.get('pre_existing'):
+                if rep.get('stage') == data.get('stage') and rep.get('pre_existing') == data.get('pre_existing') and \
+                        rep.get('first') == data.get('first', 'gen_params') and rep.get('second') == data.get('second', 'gen_coords'):
                     self.violations.append(what)
         c = C()
         same_process(c)
